@@ -889,6 +889,13 @@ class Manager:
 
             self.fire(exception(*err, handler=None, fevent=event))
 
+            # The generator that raised will not run again (nor will the
+            # call/wait it was being resumed from): the event must not
+            # wait for it.
+            event.waitingHandlers -= 2 if parent else 1
+            if event.waitingHandlers == 0:
+                self._eventDone(event, err)
+
     def tick(self, timeout=-1):
         """
         Execute all possible actions once. Process all registered tasks
